@@ -63,7 +63,7 @@ theorem MRel.consume {δ d skip : Nat} {ab : Ab} {sm : SeqMode} {ms mw : M κ} (
       rw [hrs, hrw] at hr
       have hl : LexRel δ d ab ms.c.nextPos ls lw := hr
       show LexRel δ d ab.inStep (ms.c.nextPos + ks) ls lw
-      exact { hl with ls_le := by have := hl.ls_le; omega, p := fun _ => by have := hl.ls_le; omega }
+      exact { hl with ls_le := by have := hl.ls_le; omega, p := (fun _ => by have := hl.ls_le; omega), ntu := (fun g n hn => leNonTag_mono (by omega) (hl.ntu g n hn)), ntp := (fun g _ n hn => leNonTag_mono (by omega) (hl.ntu g n hn)) }
   | scanner ss =>
     cases hrw : mw.r with
     | lexer lw => rw [hrs, hrw] at hr; exact hr.elim
